@@ -594,12 +594,12 @@ func (v *PacketDslVisitorImpl) VisitMatchPair(ctx *gen.MatchPairContext) interfa
 	val := ctx.IDENTIFIER().GetText()
 	var key string
 	if ctx.DIGITS() != nil {
-		key = ctx.DIGITS().GetText()
+		key = decimalKey(ctx.DIGITS().GetText())
 	} else if ctx.STRING() != nil {
 		key = ctx.STRING().GetText()
 	} else if ctx.List() != nil {
 		for _, k := range ctx.List().AllDIGITS() {
-			pairs = append(pairs, model.MatchPair{Key: k.GetText(), Value: val, Line: k.GetSymbol().GetLine(), Column: k.GetSymbol().GetTokenSource().GetCharPositionInLine()})
+			pairs = append(pairs, model.MatchPair{Key: decimalKey(k.GetText()), Value: val, Line: k.GetSymbol().GetLine(), Column: k.GetSymbol().GetTokenSource().GetCharPositionInLine()})
 		}
 		for _, k := range ctx.List().AllSTRING() {
 			pairs = append(pairs, model.MatchPair{Key: k.GetText(), Value: val, Line: k.GetSymbol().GetLine(), Column: k.GetSymbol().GetTokenSource().GetCharPositionInLine()})
@@ -608,6 +608,16 @@ func (v *PacketDslVisitorImpl) VisitMatchPair(ctx *gen.MatchPairContext) interfa
 	}
 
 	return append(pairs, model.MatchPair{Key: key, Value: val, Line: ctx.GetStart().GetLine(), Column: ctx.GetStart().GetTokenSource().GetCharPositionInLine()})
+}
+
+// decimalKey is the canonical spelling of an integer match key. Keys are decimal numbers; the
+// generators copy them into the emitted code, where a leading zero would turn 010 into an octal
+// literal (Go, Java, C++) or a syntax error (Python), and 010 and 10 would pass as two keys.
+func decimalKey(digits string) string {
+	if trimmed := strings.TrimLeft(digits, "0"); trimmed != "" {
+		return trimmed
+	}
+	return "0"
 }
 
 // VisitRefMetaDataDeclaration handles reference metadata declarations.
